@@ -105,8 +105,22 @@ def check(case, rec: Rec) -> None:
 
             dates = {e["create"] for exp, _, _ in exps.values() for e in exp} | {today}
             (zdir / ".zorg").mkdir()
-            counters_json = _json.dumps(
-                {d[2:4] + d[5:7] + d[8:10]: chain()[case["counter_pos"]] for d in sorted(dates)}, indent=4)
+            ch = chain()
+            index_of = {sfx: i for i, sfx in enumerate(ch)}
+            planted = {}
+            for exp, pg, _ in exps.values():
+                for it in P.iter_items(pg):
+                    if it["zid"]:
+                        planted.setdefault(it["zid"][:6], []).append(index_of.get(it["zid"][7:], -1))
+            counters = {}
+            for d in sorted(dates):
+                key = d[2:4] + d[5:7] + d[8:10]
+                pos = case["counter_pos"]
+                # a counter must never run into a ZID that is already written in the files
+                while any(pos <= q < pos + 400 for q in planted.get(key, [])):
+                    pos = max(q for q in planted[key] if pos <= q < pos + 400) + 1
+                counters[key] = ch[min(pos, len(ch) - 1)]
+            counters_json = _json.dumps(counters, indent=4)
             (zdir / ".zorg" / "next_ids.json").write_text(counters_json)
             rec.label("pre-advanced-zid-counters")
         with rec.sut("db-create"):
